@@ -39,6 +39,9 @@ Conf(e) ==
   ELSE IF out.seq # e.child THEN "child-differs-from-specification"
   ELSE OK
 
+\* the transcription is replayed on sequences up to this length and tapes up to three times this many draws only (it is a note, never a verdict, and costs a pass over the
+\* sequence per draw); the statement's clauses above are judged at every length
+ConfBound == 200
 Tr == Traces[t]
 Init == t \in 1..Len(Traces) /\ l = 0 /\ verdict = <<"run">>
 Step == /\ verdict = <<"run">> /\ l < Len(Tr.ev)
@@ -46,7 +49,7 @@ Step == /\ verdict = <<"run">> /\ l < Len(Tr.ev)
            IF j = OK \/ IsKnown(j) THEN
                 /\ l' = l + 1 /\ verdict' = verdict
                 /\ (IsKnown(j) => PrintT(<<"KNOWN", ToJson([tid |-> Tr.tid, ev |-> l + 1, id |-> j])>>))
-                /\ (Conf(Tr.ev[l+1]) # OK => PrintT(<<"NOTE", ToJson([tid |-> Tr.tid, ev |-> l + 1, what |-> Conf(Tr.ev[l+1])])>>))
+                /\ ((Len(Tr.ev[l+1].parent) <= ConfBound /\ Len(Tr.ev[l+1].tape) <= 3 * ConfBound /\ Conf(Tr.ev[l+1]) # OK) => PrintT(<<"NOTE", ToJson([tid |-> Tr.tid, ev |-> l + 1, what |-> Conf(Tr.ev[l+1])])>>))
            ELSE l' = l /\ verdict' = <<"reject", l + 1, j>> /\ PrintT(<<"REJ", ToJson([tid |-> Tr.tid, ev |-> l + 1, clause |-> j])>>)
         /\ t' = t
 Done == /\ verdict = <<"run">> /\ l = Len(Tr.ev)
